@@ -39,4 +39,9 @@ def endsFlip (t0 t1 : Nat) : Bool := (t0 ≥ 2) != (t1 ≥ 2)
 /-- admissible slot pairs: one slot from each end -/
 def endsPairs : List (Nat × Nat) := [(0, 1), (0, 3), (2, 1), (2, 3), (1, 0), (3, 0), (1, 2), (3, 2)]
 
+/-- smallest ring in which a double bond has distinguishable E and Z forms as far as stereo *notation* is concerned:
+trans-cyclooctene is the smallest isolable trans-cycloalkene; RDKit (and InChI) ignore double-bond stereo in rings of
+fewer than 8 atoms. -/
+def minStereoRing : Nat := 8
+
 end ChythonModel.Spec
